@@ -159,7 +159,8 @@ STDOFFS = ['-8:00', '-3:30', '0:00', '5:45', '12:45', '1:00', '5:40', '-3:40']  
 ATS = ['0:00', '2:00', '2:00s', '1:00u', '24:00', '3:00']
 SAVES = ['0', '1:00', '0:30', '2:00']
 ONS = ['1', '15', 'lastSun', 'Sun>=1', 'Sun>=8', 'Sun>=15', 'lastSat', 'Fri>=22', 'Sat>=1']   # forms zic can also express in its POSIX-TZ footer (needed beyond 2037)
-UNTILS = [['YEAR'], ['YEAR', 'Jan', '1'], ['YEAR', 'Mar', 'lastSun', '2:00'], ['YEAR', 'Oct', 'Sun>=1', '2:00s'], ['YEAR', 'Apr', '1', '1:00u'], ['YEAR', 'Jul', '15', '0:00']]
+UNTILS = [['YEAR'], ['YEAR', 'Jan', '1'], ['YEAR', 'Mar', 'lastSun', '2:00'], ['YEAR', 'Oct', 'Sun>=1', '2:00s'], ['YEAR', 'Apr', '1', '1:00u'], ['YEAR', 'Jul', '15', '0:00'],
+          ['YEAR', 'May', '1', '1:00g']]     # g (and z) are zic's other spellings of u
 MONTHS = ['Jan', 'Feb', 'Mar', 'Apr', 'May', 'Jun', 'Jul', 'Aug', 'Sep', 'Oct', 'Nov', 'Dec']
 
 
